@@ -125,3 +125,18 @@ Theorem C07_trace_fn_is_the_translated_C :
   forall d e args w, run_trace d skel_funs e args fn_trace w = Some (trace_fn d e args w).
 Proof. exact skel_trace. Qed.
 Print Assumptions C07_trace_fn_is_the_translated_C.
+
+(* ------------------------------------------------------------------ tie by translation: opening / closing functions *)
+(* <prefix><dst>_open_packet / _close_packet as REGENERATED from the template text of barectf.c.j2 on every
+   run (tools/c2coq.py -> Gen/CSkelFuns.v fn_open, fn_close; the serialization of the header / context
+   operation trees and the three write-back blocks are single abstract statements, tied by the operation
+   tree capture and the differential runs), run by the semantics of Tracer/CSkelOC.v, are Model.open_fn /
+   Model.close_fn for every data stream type and world: the guard (tracing disabled AND not called from a tracing function) that makes the platform's open / close calls no-ops while disabled and lets a tracing call's own packet switch complete. *)
+From BT.Tracer Require Import CSkel CSkelOC CSkelOCProofs.
+From BT.Gen Require Import CSkelFuns.
+Theorem C07_open_fn_is_the_translated_C : forall d w, run_oc d fn_open w = Some (open_fn d w).
+Proof. exact skel_open. Qed.
+Print Assumptions C07_open_fn_is_the_translated_C.
+Theorem C07_close_fn_is_the_translated_C : forall d w, run_oc d fn_close w = Some (close_fn d w).
+Proof. exact skel_close. Qed.
+Print Assumptions C07_close_fn_is_the_translated_C.
